@@ -296,16 +296,21 @@ class State:
         return z3.Const(f'{base}!{self.fresh_n}', sort)
 
     # -- path condition
-    def assume(self, e):
+    def assume(self, e, as_fact=False, split=True):
         if isinstance(e, bool):
             if not e:
                 raise Infeasible()
             return
-        e = z3.simplify(e) if False else e
         if z3.is_true(e):
             return
         if z3.is_false(e):
             raise Infeasible()
+        if z3.is_and(e) and not split is False:
+            # conjuncts separately: quantifier-free ones stay usable for pruning
+            r = False
+            for c in e.children():
+                r = (self.fact(c) if as_fact else self.assume(c)) or r
+            return r
         i = e.get_id()
         if i in self.pc_ids:
             return
@@ -318,9 +323,35 @@ class State:
         contract (as opposed to a branch decision)."""
         if isinstance(e, bool):
             return self.assume(e)
-        if self.assume(e):
+        if z3.is_and(e):
+            return self.assume(e, as_fact=True)
+        if self.assume(e, split=False):
             # keep the AST alive as long as its id is recorded: z3 reuses ids of freed ASTs
             self.fact_ids[e.get_id()] = e
+            return True
+
+    def pruning_solver(self):
+        """Incremental solver holding the quantifier-free part of the path condition (used only
+        for cheap feasibility pruning).  Re-synchronised lazily with `pc`."""
+        s = getattr(self, '_ps', None)
+        ids = getattr(self, '_ps_ids', None)
+        n = len(self.pc)
+        ok = s is not None and len(ids) <= n
+        if ok:
+            for k, i in enumerate(ids):
+                if self.pc[k].get_id() != i:
+                    ok = False
+                    break
+        if not ok:
+            s = mk_solver(150)
+            ids = []
+            self._ps = s
+            self._ps_ids = ids
+        for e in self.pc[len(ids):]:
+            if not has_quantifier(e):
+                s.add(e)
+            ids.append(e.get_id())
+        return s
 
     def oblige(self, name: str, goal):
         self.obligations.append((name, list(self.pc), goal))
@@ -527,29 +558,28 @@ class Interp:
     def feasible(self, extra) -> bool:
         """Cheap over-approximate feasibility (quantified hypotheses are left out)."""
         self.shared['prune_checks'] += 1
-        s = mk_solver(150)
-        for e in self.st.pc:
-            if not has_quantifier(e):
-                s.add(e)
         if has_quantifier(extra):
             return True
+        s = self.st.pruning_solver()
+        s.push()
         s.add(extra)
-        return s.check() != z3.unsat
+        r = s.check() != z3.unsat
+        s.pop()
+        return r
 
     def feasible2(self, c, nc):
         if has_quantifier(c):
             return True, True
         self.shared['prune_checks'] += 1
-        s = mk_solver(150)
-        for e in self.st.pc:
-            if not has_quantifier(e):
-                s.add(e)
+        s = self.st.pruning_solver()
         s.push()
         s.add(c)
         t_ok = s.check() != z3.unsat
         s.pop()
+        s.push()
         s.add(nc)
         f_ok = s.check() != z3.unsat
+        s.pop()
         return t_ok, f_ok
 
     def decide(self, cond) -> bool:
@@ -985,8 +1015,27 @@ class Interp:
         c = _OLD.get(i)
         if c is not None:
             return c[1]
-        txt = r.sexpr()
-        res = ('alloc0' not in txt) and ('!' not in txt)
+        res = True
+        stack = [r]
+        seen = set()
+        while stack and res:
+            e = stack.pop()
+            j = e.get_id()
+            if j in seen:
+                continue
+            seen.add(j)
+            if z3.is_app(e):
+                if e.num_args() == 0:
+                    nm = e.decl().name()
+                    if nm == 'alloc0' or '!' in nm:
+                        res = False
+                else:
+                    nm = e.decl().name()
+                    if '!' in nm:
+                        res = False
+                    stack.extend(e.children())
+            elif z3.is_quantifier(e) or z3.is_var(e):
+                res = False
         _OLD[i] = (r, res)
         return res
 
@@ -1624,6 +1673,8 @@ class Interp:
             return z3.And(*[self.equal(x, y) for x, y in zip(a.py, b.py)]) if a.py else z3.BoolVal(True)
         if ka == 'const' and kb == 'const':
             return z3.BoolVal(a.py == b.py)
+        if ka == 'pylist' and kb == 'pylist':
+            return self.list_equal(a.py, b.py)
         prim = ('none', 'bool', 'int', 'str', 'float')
         if ka in prim and kb in prim:
             if ka == kb:
@@ -1679,6 +1730,33 @@ class Interp:
         if ka == 'ref' and kb in prim or kb == 'ref' and ka in prim:
             return z3.BoolVal(False)
         raise Unsupported(f'== between {ka} and {kb}')
+
+    def list_equal(self, a: PyList, b: PyList):
+        """`xs == ys` for two Python-side lists, segment by segment."""
+        sa = a.segs if a.href is None else [self.heap_seg(a.href, a.T)]
+        sb = b.segs if b.href is None else [self.heap_seg(b.href, b.T)]
+        if len(sa) != len(sb):
+            raise Unsupported('== on lists of different segment structure')
+        parts = []
+        for x, y in zip(sa, sb):
+            if x[0] == 'item' and y[0] == 'item':
+                parts.append(self.equal(x[1], y[1]))
+            elif x[0] == 'comp' and y[0] == 'comp':
+                # equal as sequences iff the abstractions coincide (same id, or the Map/Filter
+                # congruence lemma identifies their tokens)
+                parts.append(self.ctok(x[1]) == self.ctok(y[1]))
+            elif x[0] == 'heap' and y[0] == 'heap':
+                if x[3].eq(y[3]) and x[4].eq(y[4]):
+                    continue
+                j = z3.Int('j!le')
+                parts.append(z3.And(x[4] == y[4], z3.ForAll([j], z3.Implies(z3.And(0 <= j, j < x[4]), x[3][j] == y[3][j]),
+                                                            patterns=[x[3][j]])))
+            else:
+                raise Unsupported(f'== between list segments {x[0]} and {y[0]}')
+        return z3.And(*parts) if parts else z3.BoolVal(True)
+
+    def ctok(self, c):
+        return comp_tok(z3.IntVal(c.idx), *self.ctx_args(c))
 
     def contains(self, container: SV, x: SV):
         """`x in container`"""
@@ -2252,6 +2330,9 @@ class Interp:
             if h is not None:
                 return h(self, args, kwargs, fr)
             raise Unsupported(f'call of non-Python function {fn!r}')
+        ab = getattr(fn, '_pyvc_abstract', None)
+        if ab is not None:
+            return self.call_abstract(ab, args)
         qual = qualname_of(fn)
         con = self.reg.contracts.get(qual)
         if con is not None and qual != self.top_target and not getattr(con, 'inline', False) and not self.in_spec_inline(con):
@@ -2278,6 +2359,29 @@ class Interp:
         finally:
             self.depth -= 1
             self.in_spec = spec_before
+
+    def heap_version(self):
+        """An integer identifying the current heap state (same arrays -> same number)."""
+        key = tuple(sorted((k, v.get_id()) for k, v in self.st.heap.items()
+                           if not (z3.is_const(v) and v.decl().name() == k + '@0')))
+        tab = self.shared.setdefault('heap_versions', {})
+        if key not in tab:
+            tab[key] = (len(tab) + 1, dict(self.st.heap))      # keep the ASTs alive
+        return z3.IntVal(tab[key][0])
+
+    def call_abstract(self, ab, args) -> SV:
+        name, ret = ab
+        T = parse_type(ret)
+        sort = {'str': S, 'bool': B, 'int': I}.get(T[0], Val)
+        f = z3.Function('abs:' + name, *([Val] * len(args)), I, sort)
+        e = f(*[self.box(a) for a in args], self.heap_version())
+        if T[0] == 'str':
+            return mk_str(e)
+        if T[0] == 'bool':
+            return mk_bool(e)
+        if T[0] == 'int':
+            return mk_int(e)
+        return self.unbox(e, T)
 
     def in_spec_inline(self, con) -> bool:
         return False
@@ -2605,7 +2709,10 @@ class Interp:
         if kind == 'comp':
             c = seg[1]
             if not z3.is_true(z3.simplify(c.cond)):
-                raise Unsupported('iteration over a filtered comprehension')
+                if not getattr(self, 'allow_filtered', False):
+                    raise Unsupported('iteration over a filtered comprehension')
+                # only elements that passed the inner filter are iterated (the caller conjoins it)
+                st.fact(z3.substitute(c.cond, (c.K, K)))
             return self.subst_sv(c.val, c.K, K)
         if kind == 'enum':
             return SV('tuple', py=[mk_int(K), self.seg_element(seg[1], K)])
@@ -2668,7 +2775,9 @@ class Interp:
             sub.kdepth += 1
             sub.binders = list(self.binders) + [K]
             sub.st.binders = list(sub.binders)
+            sub.allow_filtered = getattr(self, 'allow_filtered', False)
             x = sub.seg_element(seg, K)
+            sub.allow_filtered = False
             return body(sub, nfr, x)
         results = self.explore(thunk, frames)
         paths = []
@@ -2695,6 +2804,8 @@ class Interp:
             if kinds == {'tuple'} and len({len(c[1].py) for c in cases}) == 1:
                 n = len(cases[0][1].py)
                 return SV('tuple', py=[self.merge_values([(c, v.py[i]) for c, v in cases]) for i in range(n)])
+            if kinds & {'pylist', 'gen', 'closure', 'bound', 'exc', 'iter'}:
+                raise Unsupported(f'cannot merge values of kinds {kinds}')
             # box everything that can be boxed
             try:
                 boxed = [(c, SV('val', self.box(v), T=('any',))) for c, v in cases]
@@ -2722,7 +2833,12 @@ class Interp:
     def make_comp(self, seg, frames, body, kind='list') -> 'CompResult':
         """Summarise `[val(x) for x in seg if cond(x)]`; body returns (filterBool, valSV)."""
         st = self.st
-        K, length, paths = self.summarize(seg, frames, body, canonical=True)
+        inner = seg[1] if seg[0] == 'comp' and not z3.is_true(z3.simplify(seg[1].cond)) else None
+        self.allow_filtered = inner is not None
+        try:
+            K, length, paths = self.summarize(seg, frames, body, canonical=True)
+        finally:
+            self.allow_filtered = False
         oks, raises = [], []
         for p in paths:
             if p['changed']:
@@ -2755,6 +2871,9 @@ class Interp:
             # no path filters anything out: the path conditions only partition the (well-typed,
             # non-raising) elements, so every element passes
             cond = z3.BoolVal(True)
+        elif oks and len({z3.simplify(p['out'][1][0]).get_id() for p in oks}) == 1:
+            # the same filter formula on every path of the partition: it is the filter
+            cond = z3.simplify(oks[0]['out'][1][0])
         val = self.merge_values(val_cases) if val_cases else NONE
         # what was learnt about the generic element (typing, callee postconditions) holds for
         # every element of the segment
@@ -2765,6 +2884,10 @@ class Interp:
                 rng = z3.And(0 <= K, K < length, *p['dec'])
                 st.fact(self.qf(True, K, z3.Implies(rng, z3.And(*p['facts'][1:])), pats))
                 elem_facts.append(z3.Implies(z3.And(*p['dec']) if p['dec'] else z3.BoolVal(True), z3.And(*p['facts'][1:])))
+        if inner is not None:
+            # [f(y) for y in [g(x) for x in xs if p(x)] if q(y)] == [f(g(x)) for x in xs if p(x) and q(g(x))]
+            cond = z3.simplify(z3.And(z3.substitute(inner.cond, (inner.K, K)), cond))
+            seg = inner.seg
         c = self.register_comp(seg, K, length, cond, val, kind)
         known = ([noraise] if noraise is not None else []) + elem_facts
         if known:
@@ -2847,11 +2970,24 @@ class Interp:
                 def body(sub, nfr, x, g=g):
                     cfr = Frame(nfr[0].globals, {}, nfr[0], nfr[0].qual, nfr[0].cls)
                     sub.assign(g.target, x, cfr)
-                    flt = z3.BoolVal(True)
-                    for cond in g.ifs:
-                        if not sub.decide(sub.truthy(sub.ev(cond, cfr))):
-                            return (z3.BoolVal(False), NONE)
-                    return (flt, elt_fn(sub, cfr))
+                    # the filter is one formula (no forking on it); the element expression is
+                    # evaluated under the hypothesis that the element passes
+                    flts = [sub.ev_cond(cond, cfr) for cond in g.ifs]
+                    if not flts:
+                        return (z3.BoolVal(True), elt_fn(sub, cfr))
+                    flt = z3.simplify(z3.And(*flts)) if len(flts) > 1 else z3.simplify(flts[0])
+                    if z3.is_false(flt):
+                        return (z3.BoolVal(False), NONE)
+                    try:
+                        v = sub.with_assumption(flts, lambda: elt_fn(sub, cfr))
+                    except Infeasible:
+                        return (z3.BoolVal(False), NONE)
+                    except PyRaise:
+                        # the element expression raises only for elements that pass the filter
+                        if sub.decide(flt):
+                            raise
+                        return (z3.BoolVal(False), NONE)
+                    return (flt, v)
                 c = self.make_comp(seg, [fr], body, kind)
                 out.append(('comp', c))
         return out
@@ -3007,19 +3143,26 @@ class Interp:
         # completed: accumulate
         for n, before in str_acc.items():
             cases = []
-            any_piece = False
+            conds = []
             for p in ft:
                 fin = p['fr'][0].locals[n]
                 piece = strip_prefix(fin.e, acc_syms[n])
                 if piece is None:
                     raise Unsupported(f'loop accumulator `{n}` is not of the form acc + piece')
-                if not (z3.is_string_value(piece) and piece.as_string() == ''):
-                    any_piece = True
+                if z3.is_string_value(piece) and piece.as_string() == '':
+                    continue           # nothing added on this path: the element is filtered out
+                conds.append(self.path_cond(p))
                 cases.append((self.path_cond(p), mk_str(piece)))
-            if not any_piece:
+            if not cases:
                 continue
             val = self.merge_values(cases)
-            c = self.register_comp(seg, K, length, z3.BoolVal(True), val, 'join')
+            cond = z3.BoolVal(True) if len(cases) == len(ft) else z3.simplify(z3.Or(*conds))
+            c = self.register_comp(seg, K, length, cond, val, 'join')
+            ef = [z3.Implies(self.path_cond(p), z3.And(*p['facts'][1:])) for p in ft if len(p['facts']) > 1]
+            if ef:
+                kf = z3.And(*ef)
+                kf = kf if K.eq(c.K) else z3.substitute(kf, (K, c.K))
+                c.noraise = kf if c.noraise is None else z3.And(c.noraise, kf)
             fr.locals[n] = mk_str(z3.Concat(before.e, self.cjoin(c, SVAL(''))))
         for n, before in list_acc.items():
             conds, cases = [], []
@@ -3031,10 +3174,15 @@ class Interp:
                 extra = segs[1:]
                 if not extra:
                     continue
-                if len(extra) != 1 or extra[0][0] != 'item':
+                if len(extra) != 1 or extra[0][0] not in ('item', 'opt'):
                     raise Unsupported(f'loop appends more than one element to `{n}` per iteration')
-                conds.append(self.path_cond(p))
-                cases.append((self.path_cond(p), extra[0][1]))
+                if extra[0][0] == 'opt':
+                    pc_ = z3.And(self.path_cond(p), extra[0][1])
+                    conds.append(pc_)
+                    cases.append((pc_, extra[0][2]))
+                else:
+                    conds.append(self.path_cond(p))
+                    cases.append((self.path_cond(p), extra[0][1]))
             if not cases:
                 continue
             cond = z3.simplify(z3.Or(*conds))
@@ -3257,6 +3405,7 @@ class Interp:
 comp_cnt = z3.Function('comp_cnt', I, I, I, I, I)
 comp_join = z3.Function('comp_join', I, I, I, I, S, S)
 comp_sum = z3.Function('comp_sum', I, I, I, I, I)
+comp_tok = z3.Function('comp_tok', I, I, I, I, I)
 heap_join = z3.Function('heap_join', ElArr, I, S, S)
 float_nonzero = z3.Function('float_nonzero', I, B)
 dict_pos = z3.Function('dict_pos', KeyArr, S, I)
